@@ -233,6 +233,11 @@ protected:
   /// Suffix head check
   int sufheadcheck(SufRead *sr);
 
+  /// Largest suffix name length (incl. terminator) and value table
+  /// length accepted from a file. The text reader keeps the name
+  /// in a 512-byte line buffer.
+  enum { MAX_SUF_NAMELEN = 510, MAX_SUF_TABLEN = 1<<24 };
+
   /// Report Early Eof
   NLW2_SOLReadResultCode ReportEarlyEof();
 
